@@ -49,7 +49,7 @@ Proof.
   split; [exact Hf|]. split; [exact Hl|].
   unfold cbit in Hsh. rewrite forallb_forall in Hsh. specialize (Hsh (f, l) Hin). cbn [fst snd] in Hsh.
   destruct Ho as (_ & _ & Hcell & Hbit & _). rewrite (Hbit t f l Ht Hf Hl) in Hsh.
-  destruct (Hcell t f Ht (f1_act_lt fb HF1 f Hf)) as (l0 & _ & El0). rewrite El0 in *. rewrite is_level_some in Hsh.
+  destruct (Hcell t f Ht Hf) as (l0 & _ & El0). rewrite El0 in *. rewrite is_level_some in Hsh.
   apply Nat.eqb_eq in Hsh. now subst.
 Qed.
 
@@ -81,17 +81,17 @@ Proof.
     destruct (ff_window fd) as [w|] eqn:Ew; [|discriminate].
     destruct (ff_complex fd); [discriminate|]. apply negb_true_iff in Hbad.
     destruct (shown_cell s q c di t f l Ho Hc Hdi Ht Hsh Hp) as (Hf & Hlv & Ecell).
-    pose proof (proj1 (factor_ok_f1 fb HF1 HT s q f fd Ho Efd) (Hfo f fd Efd) w Ew t l Ht Ecell) as Hacc.
-    rewrite (accepts_level_accepts fb HF1 s q f fd w t l Ho Efd Ew Ht) in Hacc.
+    pose proof (proj1 (factor_ok_f1 fb HF1 HT s q f fd Ho Efd Hf) (Hfo f fd Efd) w Ew t l Ht Ecell) as Hacc.
+    rewrite (accepts_level_accepts fb HF1 s q f fd w t l Ho Efd Ew Hf Ht) in Hacc.
     assert (Hin : In (map (lev q t) (win_deps w))
                      (product (map (fun d => match lookup_level di d with Some x => [x] | None => seq 0 (nlevels fb d) end)
                                    (win_deps w)))).
     { apply in_product_gen. intros d Hd. destruct (lookup_level di d) as [x|] eqn:Ed.
       - destruct (shown_cell s q c di t d x Ho Hc Hdi Ht Hsh (lookup_in di d x Ed)) as (_ & _ & Ec).
         unfold lev. rewrite Ec. now left.
-      - destruct (f1_tables_facts fb HF1 f fd w Efd Ew) as [Hdeps _].
+      - destruct (f1_tables_facts fb HF1 f fd w Efd Ew Hf) as [Hdeps _].
         pose proof (proj1 (Forall_forall _ _) Hdeps d Hd) as Hdn. cbv beta in Hdn.
-        destruct Ho as (_ & _ & Hcell & _). destruct (Hcell t d Ht (f1_act_lt fb HF1 d Hdn)) as (x & Hx & Ex).
+        destruct Ho as (_ & _ & Hcell & _). destruct (Hcell t d Ht Hdn) as (x & Hx & Ex).
         unfold lev. rewrite Ex. apply in_seq. lia. }
     assert (Hex' : existsb (level_accepts fd l)
                      (product (map (fun d => match lookup_level di d with Some x => [x] | None => seq 0 (nlevels fb d) end)
